@@ -60,3 +60,39 @@ Theorem C17_load_is_logged :
     step run c (EvLoad i d) = {| c_log := c_log c ++ [EnLoad E d]; c_dbs := c_dbs c |}.
 Proof. exact load_is_logged. Qed.
 Print Assumptions C17_load_is_logged.
+
+(* Histories of API calls on a live node (Model.C17, Section History): whatever operations ran
+   before and wherever they stopped, every pooled read-only connection still has query_only set ... *)
+Theorem C17_ro_pool_invariant :
+  forall (D E : Type) (run_at : bool -> pool -> sub E -> D -> D)
+         (ops : list (nat * hop E)) (st : hstate D),
+    h_ok st = true -> h_ok (hrun run_at st ops) = true.
+Proof. exact ro_pool_invariant. Qed.
+Print Assumptions C17_ro_pool_invariant.
+
+(* ... so reads, refused requests, backups and snapshots never change the contents, over any history *)
+Theorem C17_history_reads_never_write :
+  forall (D E : Type) (run_at : bool -> pool -> sub E -> D -> D), ro_pool_inert (run_at true) ->
+  forall (ops : list (nat * hop E)) (st : hstate D),
+    h_ok st = true ->
+    Forall (fun eo => may_write D (snd eo) = false) ops ->
+    h_db (hrun run_at st ops) = h_db st.
+Proof. exact history_reads_never_write. Qed.
+Print Assumptions C17_history_reads_never_write.
+
+Theorem C17_history_step_inert :
+  forall (D E : Type) (run_at : bool -> pool -> sub E -> D -> D), ro_pool_inert (run_at true) ->
+  forall (ops : list (nat * hop E)) (st : hstate D) (exit : nat) (op : hop E),
+    h_ok st = true -> may_write D op = false ->
+    h_db (fst (hstep run_at exit (hrun run_at st ops) op)) = h_db (hrun run_at st ops).
+Proof. exact history_step_inert. Qed.
+Print Assumptions C17_history_step_inert.
+
+(* a Store operation that did not grow the log did not change the contents *)
+Theorem C17_change_needs_log_entry :
+  forall (D E : Type) (run_at : bool -> pool -> sub E -> D -> D), ro_pool_inert (run_at true) ->
+  forall (op : hop E) (d : D),
+    store_op op = true -> snd (hop_effect run_at true op d) = false ->
+    fst (hop_effect run_at true op d) = d.
+Proof. exact change_needs_log_entry. Qed.
+Print Assumptions C17_change_needs_log_entry.
